@@ -388,8 +388,17 @@ func (c *cmp) single(n *JNode, fd protoreflect.FieldDescriptor, v protoreflect.V
 type ROpts struct {
 	JSONNames bool // address members by JSON name instead of field name
 	Reverse   bool // members in reverse declaration order
+	Defaults  bool // also write members for unpopulated fields: scalar defaults, [] and {} (message fields stay absent)
+	Feat      *DocFeatures // if set, filled with syntactic features of the rendered document
 	// Members, if set, may rewrite the member list ("key":value strings) of every message object.
 	Members func(m protoreflect.Message, depth int, members []string) []string
+}
+
+// DocFeatures are document features that select a trigger class of their own.
+type DocFeatures struct {
+	EmptyMessage bool // a message value rendered as {} (root excluded)
+	EmptyMap     bool // a map rendered as {}
+	EmptyList    bool // a repeated field rendered as []
 }
 
 func RenderJSON(m protoreflect.Message, o ROpts) []byte {
@@ -430,7 +439,9 @@ func renderMsg(sb *strings.Builder, m protoreflect.Message, o ROpts, depth int) 
 	for i := 0; i < fields.Len(); i++ {
 		fd := fields.Get(i)
 		if !m.Has(fd) {
-			continue
+			if !o.Defaults || (fd.Kind() == Message && !fd.IsList() && !fd.IsMap()) {
+				continue
+			}
 		}
 		key := string(fd.Name())
 		if o.JSONNames {
@@ -447,6 +458,9 @@ func renderMsg(sb *strings.Builder, m protoreflect.Message, o ROpts, depth int) 
 	}
 	if o.Members != nil {
 		members = o.Members(m, depth, members)
+	}
+	if o.Feat != nil && depth > 0 && len(members) == 0 {
+		o.Feat.EmptyMessage = true
 	}
 	sb.WriteByte('{')
 	sb.WriteString(strings.Join(members, ","))
@@ -481,6 +495,7 @@ func renderField(sb *strings.Builder, fd protoreflect.FieldDescriptor, v protore
 		kk := fd.MapKey().Kind()
 		sort.Slice(es, func(i, j int) bool {
 			a, b := es[i].k.Value(), es[j].k.Value()
+			_ = depth
 			switch kk {
 			case String:
 				return a.String() < b.String()
@@ -491,6 +506,9 @@ func renderField(sb *strings.Builder, fd protoreflect.FieldDescriptor, v protore
 			}
 			return a.Int() < b.Int()
 		})
+		if o.Feat != nil && len(es) == 0 {
+			o.Feat.EmptyMap = true
+		}
 		sb.WriteByte('{')
 		for i, e := range es {
 			if i > 0 {
@@ -504,6 +522,9 @@ func renderField(sb *strings.Builder, fd protoreflect.FieldDescriptor, v protore
 	case fd.IsList():
 		sb.WriteByte('[')
 		l := v.List()
+		if o.Feat != nil && l.Len() == 0 {
+			o.Feat.EmptyList = true
+		}
 		for i := 0; i < l.Len(); i++ {
 			if i > 0 {
 				sb.WriteByte(',')
